@@ -176,7 +176,7 @@ def check_no_truthiness_on_coordinates(prog, chk, rule: str, modules: Iterable[s
             elif isinstance(node, ast.comprehension):
                 tested += node.ifs
             for t in tested:
-                if isinstance(t, (ast.Compare, ast.BoolOp, ast.UnaryOp)) or (isinstance(t, ast.Call) and not (isinstance(node, ast.Call))):
+                if isinstance(t, (ast.Compare, ast.BoolOp, ast.UnaryOp)) or (isinstance(t, ast.Call) and not (isinstance(node, ast.Call)) and not (A.callee_name(t) == "getattr" and len(t.args) >= 2)):
                     continue
                 n += 1
                 if valued(prog, fi, t):
